@@ -14,6 +14,12 @@ behaviour* of the current tree:
       bind a mapping.
   template_argument_fields
       pydantic fields of TemplateArgument in order, with `required` and the default.
+  instance_context_private / literal_lists_fresh   (wave 4, Index/Alias.v: the policy `as_coded`)
+      where the list OBJECTS of an instance come from, measured on create_flows output with templates
+      that change a list in place: the same data row (with a list field) instantiated by two create_flow
+      rows - does the second instance see what the first appended?  the same template with a begin_for
+      over a literal two-level cell instantiated twice - does the second instance loop over the lists
+      the first one changed?  true = each instance works on objects of its own.
 """
 import ast
 import inspect
@@ -75,6 +81,24 @@ def _binds_mapping(kw):
     return texts == ["M"]
 
 
+_MUT = "{{ X.append('Q') or '' }}{{ X|join('+') }}"
+
+
+def _private(sheets, what):
+    """two instances, each appends to a list it is given and shows it: 'a+b+Q' twice = objects of their own (True),
+    'a+b+Q' then 'a+b+Q+Q' = the second one got the object the first one changed (False); anything else: refuse"""
+    try:
+        out = _compile(sheets)
+    except BaseException as e:  # noqa
+        raise Refuse(f"C12 {what} probe: {type(e).__name__}: {e}")
+    texts = [[a.get("text") for n in f["nodes"] for a in n["actions"]] for f in out["flows"]]
+    if texts == [["a+b+Q"], ["a+b+Q"]]:
+        return True
+    if texts == [["a+b+Q"], ["a+b+Q+Q"]]:
+        return False
+    raise Refuse(f"C12 {what} probe: unexpected texts {texts!r}")
+
+
 def tables_c12(out, notes):
     from rpft.parsers.creation.contentindexparser import ContentIndexParser
     from rpft.parsers.creation.contentindexrowmodel import TemplateArgument
@@ -108,6 +132,20 @@ def tables_c12(out, notes):
         if _binds_mapping(""):
             raise Refuse("C12: an argument declared without a type is bound to a mapping")
         out.append(f"Definition sheet_type_kw : str := {coq_str(good[0])}.")
+
+        head = "type,sheet_name,data_sheet,data_row_id,new_name\n"
+        ctx_private = _private({
+            "content_index": head + "data_sheet,dta,,,\ncreate_flow,ttt,dta,RRR,one\ncreate_flow,ttt,dta,RRR,two\n",
+            "dta": "ID,items:List[str]\nRRR,a;b\n",
+            "ttt": "row_id,type,from,message_text\n,send_message,start," + _MUT.replace("X", "items") + "\n",
+        }, "instance_context_private")
+        lit_fresh = _private({
+            "content_index": head + "create_flow,ttt,,,one\ncreate_flow,ttt,,,two\n",
+            "ttt": "row_id,type,from,loop_variable,message_text\n,begin_for,start,pr,a;b|\n,send_message,,," + _MUT.replace("X", "pr") + "\n,end_for,,,\n",
+        }, "literal_lists_fresh")
+        out.append(f"Definition instance_context_private : bool := {coq_bool(ctx_private)}.")
+        out.append(f"Definition literal_lists_fresh : bool := {coq_bool(lit_fresh)}.")
+        notes.append(f"instance_context_private={ctx_private}, literal_lists_fresh={lit_fresh}: measured on create_flows output (templates that append to a list they are given)")
     finally:
         logging.disable(logging.NOTSET)
 
